@@ -505,13 +505,18 @@ def name_schemes(tier, seed):
 
 
 def tagged_table(hdr, keycols, keyvec, tag):
-    """Rectangular table; key cells from keyvec (a compound key repeats the value in every key column); every
+    """Rectangular table; key cells from keyvec (a scalar is repeated in every key column, a tuple is spread over
+    the key columns in key order); every
     other cell is tagged with row AND column so that a dropped or misplaced column is visible."""
     rows = []
     for i, k in enumerate(keyvec):
         row = ['%s%d.%d' % (tag, i, c) for c in range(len(hdr))]
-        for c in keycols:
-            row[c] = k
+        if isinstance(k, tuple) and len(k) == len(keycols) > 1:
+            for c, kc in zip(keycols, k):       # compound key given component-wise (in key order)
+                row[c] = kc
+        else:
+            for c in keycols:
+                row[c] = k
         rows.append(tuple(row))
     return [tuple(hdr)] + rows
 
@@ -524,3 +529,68 @@ def name_data(tier, seed):
     if tier == 'quick':
         return [(), (a, b)], [(), (a,), (b, a)]
     return [(), (a,), (a, b), (None, a)], [(), (a,), (b, a), (a, a), (None,)]
+
+
+# ---------------------------------------------------------------------------------------------
+# key-argument FORM axis: wherever a key may be a field name OR an index, enumerate the alternative accepted
+# forms: index instead of name (in particular index 0, with further fields shared by both tables so that a
+# silently performed natural join is visible), one-element tuple / list, the empty-string field name '',
+# compound keys mixing indices and names, int-named header fields next to indices.
+# Same scheme format as name_schemes, plus an optional 'data' = (left key vectors, right key vectors).
+# ---------------------------------------------------------------------------------------------
+
+def keyform_schemes(tier, seed):
+    from .. import spaces
+    r = spaces.reps(seed)
+    a, b = r['i1'], r['s1']
+    S = []
+
+    def add(form, lhdr, lk, rhdr, rk, kws, data=None):
+        d = dict(form='keyform:' + form, lhdr=tuple(lhdr), lk=list(lk), rhdr=tuple(rhdr), rk=list(rk), kw=kws)
+        if data is not None:
+            d['data'] = data
+        S.append(d)
+
+    def single(kn, li, ri):
+        """all forms selecting the single key named kn that sits at column li (left) / ri (right)"""
+        kws = [{'key': kn}, {'key': (kn,)}, {'key': [kn]}, {'lkey': kn, 'rkey': kn}, {'lkey': [kn], 'rkey': (kn,)},
+               {'lkey': li, 'rkey': ri}, {'lkey': kn, 'rkey': ri}, {'lkey': li, 'rkey': kn},
+               {'lkey': (li,), 'rkey': [ri]}]
+        if li == ri:
+            kws += [{'key': li}, {'key': (li,)}, {'key': [li]}]
+        return kws
+
+    for kn in ('k', ''):
+        # key first on both sides; with and without a further shared (non-key) field name, incl. a shared ''
+        for shared in [[], ['s'], ['s', 't']] + ([['']] if kn != '' else []):
+            lhdr = [kn] + shared + ['lv']
+            rhdr = [kn] + shared + ['rv']
+            kws = single(kn, 0, 0)
+            if not shared:
+                kws = kws + [{}]
+            add('first', lhdr, [0], rhdr, [0], kws)
+        # key in another column / in different columns on the two sides
+        add('last', ['lv', 's', kn], [2], ['rv', 's', kn], [2], single(kn, 2, 2))
+        add('left0-right1', [kn, 'lv'], [0], ['rv', kn], [1], single(kn, 0, 1) + [{}])
+        add('left1-right0', ['lv', kn], [1], [kn, 'rv', 's'], [0], single(kn, 1, 0) + [{}])
+        add('left1-right2', ['lv', kn, 's'], [1], ['rv', 's', kn], [2], single(kn, 1, 2))
+    # int-named header fields next to indices (an index takes priority over a field of that name)
+    add('int-named', [1, 0, 'lv'], [0], [1, 0, 'rv'], [0], [{'key': 0}, {'key': '1'}, {'lkey': 0, 'rkey': '1'},
+                                                           {'key': [0]}])
+    add('int-named', [1, 0, 'lv'], [1], [1, 0, 'rv'], [1], [{'key': 1}, {'key': '0'}, {'lkey': '0', 'rkey': 1}])
+    # compound keys: names, indices and mixtures; component order differing from column order
+    cdata = ([(), ((a, b),), ((a, b), (b, a))], [(), ((a, b),), ((b, a), (a, b)), ((a, a),), ((None, a),)])
+    for kj in (('k', 'j'), ('', 'j'), ('k', '')):
+        k, j = kj
+        add('compound', [k, j, 'lv'], [0, 1], [k, j, 'rv'], [0, 1],
+            [{'key': [k, j]}, {'key': (k, j)}, {'key': [0, 1]}, {'key': (0, j)}, {'key': [k, 1]},
+             {'lkey': [0, 1], 'rkey': (k, j)}, {'lkey': (k, 1), 'rkey': [0, j]}, {}], cdata)
+        add('compound', [k, j, 'lv'], [1, 0], [k, j, 'rv'], [1, 0],
+            [{'key': [j, k]}, {'key': (1, 0)}, {'key': [j, 0]}, {'key': (1, k)}], cdata)
+        add('compound-swapped', [k, 's', j], [0, 2], [j, 'rv', k], [2, 0],
+            [{'lkey': [k, j], 'rkey': (k, j)}, {'lkey': [0, 2], 'rkey': [2, 0]}, {'lkey': (0, j), 'rkey': [k, 0]},
+             {'lkey': [k, 2], 'rkey': (2, j)}], cdata)
+        add('compound-swapped', [k, 's', j], [2, 0], [j, 'rv', k], [0, 2],
+            [{'lkey': [j, k], 'rkey': (j, k)}, {'lkey': [2, 0], 'rkey': [0, 2]}, {'lkey': (j, 0), 'rkey': [0, k]}],
+            cdata)
+    return S
